@@ -91,7 +91,7 @@ func VerifC12Target(n int) {
 	data := make([]byte, n)
 	t := verifU64("target")
 	verifAssume(t >= 1)
-	verifAssume((math.MaxUint64-1)/uint64(n+8)+1 >= t)
+	verifAssume(t <= math.MaxUint64/uint64(n+8)) // the property's precondition: (len+8)*t fits 64 bits
 	lx := new(big.Int).Mul(new(big.Int).SetUint64(t), big.NewInt(int64(n+8)))
 	verifAssert("lx.fits", lx.IsUint64())
 
